@@ -396,9 +396,9 @@ ASSUMPTIONS = [
 
 ALIAS_IX = {"field": 3, "vals": 2, "vali": 2, "valb": 3, "valnone": 1, "valf": 2, "vald": 2, "lit": 2, "null": 1, "arith": 4,
             "basic": 4, "cplx": 4, "in": 4, "between": 4, "bitand": 3, "isnull": 2, "notnull": 2, "not": 2, "all": 2, "case": 3,
-            "func": 3, "cast": 3, "tuple": 2, "array": 2, "sub": 1, "nega": 2, "agg": 3, "an": 4, "ch": 4}
+            "func": 3, "cast": 3, "tuple": 2, "array": 2, "sub": 1, "nega": 2, "agg": 3, "an": 4, "ch": 4, "existsc": 1}
 FUNCLIKE = ("func", "cast", "agg", "an", "ch")
-ORACLE_ONLY = ("nega", "an")
+ORACLE_ONLY = ("nega", "an", "existsc")
 AGGS = {"SUM": "Sum", "AVG": "Avg", "MIN": "Min", "MAX": "Max", "COUNT": "Count"}
 
 
@@ -611,6 +611,15 @@ def bld(t, memo):
         import pypika.analytics as A
         o = getattr(A, AGGS[t[1]])(b(t[2])).over(*[b(x) for x in t[3]])
         o = _al(o, t[4])
+    elif k == "existsc":
+        # ["existsc", alias, used_as_from]: EXISTS (SELECT "tid" FROM "u"); used_as_from: the sub-query object was a FROM
+        # source of another, already rendered statement before (pypika wrote sq0 into it)
+        from pypika import Query, Table
+        u = Table("u")
+        sq = Query.from_(u).select(u.tid)
+        if t[2]:
+            str(Query.from_(sq).select("*"))
+        o = T.ExistsCriterion(sq, alias=t[1])
     elif k == "tuple":
         o = _al(T.Tuple(*[b(a) for a in t[1]]), t[2])
     elif k == "array":
@@ -938,6 +947,10 @@ def judge_element(spec, seg, role, conv, memo, selected_names, allowed_ref, sele
         tail = [o for o in occ if o[1] == len(seg)]
         if not occ:
             viol(top_cls, "select", "alias-missing", "selected object aliased %s renders without its alias" % sentinel)
+            m_f = re.search(r'\) (?:AS )?["`]?(sq\d+)["`]?$', seg)
+            if m_f:
+                viol(top_cls, "select", "alias-foreign", "selected object aliased %s renders with the name %s, which belongs to "
+                     "an inner object (written into it by an earlier render)" % (sentinel, m_f.group(1)))
         elif not tail:
             viol(top_cls, "select", "alias-missing", "alias %s is not at the end of its select item" % sentinel)
         elif conv is not None and (not seg.endswith(suffix) or (not askw and tail[0][3])):
@@ -2100,6 +2113,21 @@ def head_grid():
     return out
 
 
+def exists_cases(classes=("Query", "MySQLQuery", "PostgreSQLQuery", "ClickHouseQuery")):
+    """an aliased ExistsCriterion in the select list, and the same object in ORDER BY / GROUP BY; also with a sub-query
+    object that was a FROM source of an earlier rendered statement"""
+    out = []
+    for cls in classes:
+        for used in (False, True):
+            e = ["existsc", "zqA", used]
+            out.append(stmt(cls, sel=[F("c"), e]))
+            out.append(stmt(cls, sel=[F("c"), e], order=[[e, None]]))
+            out.append(stmt(cls, sel=[F("c"), e], group=[e]))
+            out.append(stmt(cls, sel=[F("c"), e], group=[e], order=[[e, "desc"]]))
+            out.append(stmt(cls, sel=[F("c", "zqB")], where=e, group=[e], order=[[e, None]]))      # name not selected
+    return out
+
+
 def corpus():
     sc = dict(tf.STR_CTX)
     w_null = ["isnull", F("a"), "n"]
@@ -2127,6 +2155,8 @@ def corpus():
         for k in CONSUMING + ["an", "isnull", "cplx", "nega"]:
             x = simple_top(k, "zqA")
             out.append(stmt(cls, sel=[x], group=[x], order=[[x, "desc"]]))
+    # aliased EXISTS test: flat select + ORDER BY / GROUP BY of the same object (fixed list, every tier)
+    out += exists_cases()
     # term level: explicit alias_quote_char / as_keyword
     for k in CONSUMING + ["isnull", "vali"]:
         out.append({"kind": "term", "t": simple_top(k, "zqA"), "c": dict(sc, aq="`", askw=True, wa=True)})
